@@ -377,11 +377,18 @@ Definition r_body (h : impl_hdr) (b : body) : toks :=
   | BCloneStruct name sh fs => r_clone_struct name sh fs
   | BCloneEnum vs => r_clone_enum vs
   | BDebugStruct d dbl =>
-      fmt_sig ++ tbrace (r_debug_expr d (fun f =>
-                           (match dbl with
-                            | Some i => if fl_index f =? i then q "&& self ." else q "& self ."
-                            | None => q "& self ."
-                            end) ++ r_member (fl_member f)))
+      (* the last field goes through a function of its own: `&T: Debug` follows from `T: Debug` there, and no bound of
+         the impl's where-clause (`&'a T: Debug` of another field) can be taken for it *)
+      fmt_sig ++ tbrace ((match dbl with
+                          | Some _ => q "fn __last < '__a , __T : ? :: core :: marker :: Sized + :: core :: fmt :: Debug > ( __t : & '__a & '__a __T , ) -> & '__a dyn :: core :: fmt :: Debug { __t }"
+                          | None => []
+                          end) ++
+                         r_debug_expr d (fun f =>
+                           match dbl with
+                           | Some i => if fl_index f =? i then q "__last" ++ tparen (q "&& self ." ++ r_member (fl_member f))
+                                       else q "& self ." ++ r_member (fl_member f)
+                           | None => q "& self ." ++ r_member (fl_member f)
+                           end))
   | BDebugEnum vs =>
       fmt_sig ++
       tbrace (match_self vs ++
